@@ -96,4 +96,18 @@ theorem exec_line_checked (f : Nat) (ed : Ex.Ed) (ln : Bytes) (h : ln.length ≥
   rw [Ex.exExec]
   simp [h]
 
+/-! ### line accessors return NULL outside the buffer (`lbuf_get`) -/
+
+/-- a row outside the buffer yields no line (and a row inside yields that line): no wild index -/
+theorem line_accessor_total (ls : Mot.Lines) (r : Int) :
+    (Mot.lineAt ls r = none ↔ (r < 0 ∨ (ls.length : Int) ≤ r)) := by
+  unfold Mot.lineAt
+  split
+  · simp_all
+  · rename_i h
+    simp only [List.getElem?_eq_none_iff]
+    constructor
+    · intro hh; right; omega
+    · intro hh; rcases hh with hh | hh <;> omega
+
 end Neatvi.Props.C05
